@@ -376,3 +376,9 @@ def run(ctx):
     from rules import c12
     for name in ("__iadd__", "__isub__", "__imul__", "__itruediv__"):
         c12.check_inplace(ctx, m, "C18.f", "HistogramBase", name)
+
+    # bins and contents keep matching shapes: a grown binning always reports its growth (shared with C04.c),
+    # and the growth is followed by the reshape (C04.b)
+    ctx.rule("C18.g", "adaptive growth is always reported to the histogram, so arrays are reshaped with the binning", 1)
+    from rules import c04
+    c04.check_growth_reported(ctx, "C18.g", m)
